@@ -95,6 +95,13 @@ SIG_URI = "parse_type_uri:decoded-types-used-as-queue"
 SIG_TEXT = "parse_type:star-takes-last-parameter-of-unapplied-left-operand"
 
 
+def norm_err(obs):
+    """Which class rejects a `*` that has no left operand (AssertionError on
+    the pinned code, ParseError after the parser repair of C13/C17) is C17's
+    subject; here such a rejection counts as a ParseError on both sides."""
+    return [2] if obs in ([5], [6]) else obs
+
+
 def cps(s: str) -> list[int]:
     return [ord(c) for c in s]
 
@@ -321,7 +328,7 @@ class Impl:
         try:
             r = self.lang.parse_type(s)
         except Exception as e:  # noqa: BLE001
-            return [PERR.get(type(e).__name__, 8)], type(e).__name__
+            return norm_err([PERR.get(type(e).__name__, 8)]), type(e).__name__
         try:
             return [0] + ty_enc(self.back(r)), None
         except AssertionError:
@@ -879,6 +886,7 @@ def check_block(rep: C.Report, st: Stats, b: Block, vals, bi: int):
         m_uri, m_dec, m_dec_p, m_text, m_parse, m_parse_p, (udom, tdom) = mo
         ok_t = [0] + ty_enc(t)
         m_dec, m_dec_p, m_parse, m_parse_p = [ok_t if x == [10] else x for x in (m_dec, m_dec_p, m_parse, m_parse_p)]
+        m_parse, m_parse_p = norm_err(m_parse), norm_err(m_parse_p)
         st.n += 1
         i_uri, i_text = b.impl_obs[repr(t)]
         u = impl.uri(t)
@@ -995,6 +1003,7 @@ def check_block(rep: C.Report, st: Stats, b: Block, vals, bi: int):
     # ---- alias texts
     def one_sty(s_, mo):
         m_text, m_exp, m_parse, m_parse_p, (wf,) = mo
+        m_parse, m_parse_p = norm_err(m_parse), norm_err(m_parse_p)
         st.n += 1
         text = spec.stext(s_)
         expected = spec.expand(s_)
@@ -1033,7 +1042,7 @@ def check_block(rep: C.Report, st: Stats, b: Block, vals, bi: int):
 
     # ---- free-form / damaged texts
     def one_string(s, mo):
-        m_parse, m_parse_p = mo
+        m_parse, m_parse_p = norm_err(mo[0]), norm_err(mo[1])
         st.n += 1
         st.dist["fuzz_texts"] += 1
         if "_" in tokens_of(s):
